@@ -99,7 +99,9 @@ def roles_on_path(facts, body, tr, path):
                                 break
                 if src is not None:
                     roles.setdefault(src, f)
-                    if src[0] == "get" and sn.kind != "agg":
+                    int_field = f in ("rwnd", "target_port", "id", "bind_type") or (f == "0" and agg.get("variant") == "Acknowledge")
+                    if src[0] == "get" and sn.kind != "agg" and int_field and not any(y.kind == "agg" and y[1] == "adt" and
+                                                                                        str(y[2]).startswith("penguin_mux::") for y in walk(n)):
                         gname = [x[6] for x in walk(n) if x.kind == "call" and x[6].startswith("get_")][0]
                         m_ = re.match(r"get_[ui](\d+)", gname)
                         steps = inexact_steps(n, lambda y: y.kind == "call" and y[6].startswith("get_"), int(m_.group(1)) if m_ else None,
